@@ -163,11 +163,19 @@ def managed_protocol(repo):
                 stores = {x.get('name') for x in _walk(n) if x.get('kind') == 'MemberExpr'
                           and x.get('name') in ('store', 'exchange', 'compare_exchange_strong', 'compare_exchange_weak',
                                                 'fetch_or', 'fetch_and', 'fetch_add')}
-                if len(members) != 1 or stores or kinds & {'IfStmt', 'WhileStmt', 'ForStmt', 'ConditionalOperator',
-                                                           'CompoundAssignOperator', 'SwitchStmt'} or \
+                # member functions called besides the load of the flag (joinable(), get_id(), ...): the answer would
+                # depend on the state of the std::thread handle, which the owner changes in join / detach / move
+                calls = {x.get('name') for x in _walk(n) if x.get('kind') == 'MemberExpr'
+                         and 'bound member' in _qual(x) and x.get('name') not in (None, 'load')}
+                logic = any(x.get('kind') == 'BinaryOperator' and x.get('opcode') in ('&&', '||', '&', '|', '==', '!=')
+                            for x in _walk(n)) or \
+                    any(x.get('kind') == 'UnaryOperator' and x.get('opcode') == '!' for x in _walk(n))
+                if len(members) != 1 or stores or calls - stores or logic or \
+                        kinds & {'IfStmt', 'WhileStmt', 'ForStmt', 'ConditionalOperator',
+                                 'CompoundAssignOperator', 'SwitchStmt'} or \
                         any(x.get('kind') == 'BinaryOperator' and x.get('opcode') == '=' for x in _walk(n)):
                     raise TranslateError('ManagedThread::isActive() is more than a read of the activity flag '
-                                         '(members %s)' % sorted(members))
+                                         '(members %s, calls %s)' % (sorted(members), sorted(c for c in calls if c)))
     mode = 'Atomic' if 'atomic' in flag_type else 'Plain'
     # the destructor is the join of the protocol: it may test joinable(), it must call join(), it must not depend
     # on the activity flag and must never detach the thread
